@@ -221,10 +221,24 @@ def _calls_into(ctx, fn, comp, N=None, apply_closures=True):
                     # made by a local closure: the applied call sites in the function's term are the recursive calls
                     short = cshort(hit)
                     seen = set()
-                    for st in subterms(N.term(fn["body"])):
-                        if st[0] == "call" and st[1] == short and show(st) not in seen:
-                            seen.add(show(st))
-                            out.append((n, hit, list(st[2]), False))
+
+                    def visit_local(x, clo):
+                        # the closures of the term that enclose an applied call, with what each of them iterates (a closure passed by name
+                        # to an adaptor has no closure expression of its own in the source)
+                        if x[0] == "call" and x[1] == short and show(x) not in seen:
+                            seen.add(show(x))
+                            args_ = list(x[2])
+                            _CLO_SRC[id(args_)] = (args_, dict(clo))
+                            out.append((n, hit, args_, False))
+                        if x[0] == "call" and len(x[2]) == 2 and x[2][1][0] == "closure":
+                            visit_local(x[2][0], clo)
+                            inner = dict(clo)
+                            inner[x[2][1][1]] = x[2][0]
+                            visit_local(x[2][1][3], inner)
+                            return
+                        for c_ in _direct_subterms(x):
+                            visit_local(c_, clo)
+                    visit_local(N.term(fn["body"]), {})
                     continue
                 out.append((n, hit, [N.term(a) for a in args], True))
             elif N.transparent_fn(cal) is not None and not any(k10._same_fn(cal, m) for m in names):
